@@ -145,7 +145,10 @@ def check_meta(step):
                 import polars as pl
 
                 with pl.Config(tbl_cols=-1, tbl_width_chars=400):
-                    hn = header_names(str(tbl))
+                    text = str(tbl)
+                    if "export failed" in text:
+                        vs.append(X.violation(step, "metadata:print", b, "print-failed", {"printed": text[:200]}))
+                    hn = header_names(text)
                 if hn is not None and hn != want:
                     vs.append(X.violation(step, "metadata:print", b, "header", {"export": want, "printed": hn}))
             # incremental metadata == metadata recomputed from the whole pipeline
